@@ -23,7 +23,11 @@ import teneva
 
 LEVEL = "exploration"
 RULE = ("Hypothesis draws per-dimension boxes (symmetric / offset ~1 / offset up to kappa~1e3, widths 1e-3..1e3, integer bounds "
-        "symmetric or not; a and b spelled independently as float / Python-int / np.float64 scalars, float / int / mixed lists, "
+        "symmetric or not; box GEOMETRY far from the unit scale in ~30% of the sides of every box-taking sub-check (tt, dense, diff) and in "
+        "every case of tt_geo / dense_geo (one extreme side among ordinary ones, all sides extreme, one extreme box for all dimensions): "
+        "symmetric / offset ~1 / [0, w] / [-w, 0] boxes of width 6e-13..7e12, far-offset boxes with kappa = max(|a|,|b|)/(b-a) log-uniform "
+        "in 1e3..1e8 at any width 6e-13..7e12 (|a| up to 7e20, e.g. [1e6, 1e6+1], [1000, 1000.004], [5e-4, 5e-4 + 5e-12]), integer boxes "
+        "[N, N+w] with |N| in 1e4..2^20 and w in 1..9; a and b spelled independently as float / Python-int / np.float64 scalars, float / int / mixed lists, "
         "float64 / float32 / int64 / int32 arrays - integer spellings only for integer-valued bounds; a/b=None variants), "
         "grid sizes n_k 2..9(17), d 2..4 (TT) and 1..3 (dense), Chebyshev coefficient cores of TT-rank 1..3 with O(2^s) "
         "magnitudes and optional degree deficiency, evaluation points inside / on the boundary / on grid nodes / outside "
@@ -47,7 +51,13 @@ RULE = ("Hypothesis draws per-dimension boxes (symmetric / offset ~1 / offset up
         "func_sum and a func_get comparison inside the applicability guard (long); distinct by SHA-1.")
 TOLERANCES = ("values: |got-ref| <= [32(d+sum r) + sum_k n_k^2 (8 kappa_k + 48)] * eps * scale, scale = chain product of "
               "sum_j |C_k[:, j, :]| (abs-majorant of every value, |T_j| <= 1, |T_j'| <= j^2, point->t map loses "
-              "(4 kappa + 8) eps); coefficient tensors and integrals: the same with kappa = 0 (integral times prod (b-a)); "
+              "(4 kappa + 8) eps: the affine map t = (x - (a+b)/2) * 2/(b-a) is scale-free, its only error source is the rounding of the "
+              "centre and of x - centre, eps * |offset| / width = eps * kappa, whatever the magnitude of the width - so NO absolute tolerance "
+              "on a, b, b-a or x enters any bound and every bound is relative to the width: values ~ kappa n^2 eps scale, integrals ~ eps "
+              "scale prod (b-a), D_j ~ eps (2/(b-a))^j, nodes ~ eps (|a|+|b|+width); measured on the pinned tree for kappa 1..1e13, widths "
+              "1e-12..1e12: observed error <= 0.01 of the bound for func_get / func_get_full / func_get at ind_to_poi nodes, <= 0.13 of "
+              "(4 kappa + 8) eps for poi_scale, <= 0.001 of the bound for func_sum; the generated kappa stops at 1e8 only because the bound "
+              "8 kappa n^2 eps (1.4e-5 scale for n = 9, 5e-5 for n = 17) would stop being informative beyond); coefficient tensors and integrals: the same with kappa = 0 (integral times prod (b-a)); "
               "D_j y: 64 eps n^(2j+1) (2/(b-a))^j sum|c| (||D_j||_inf <= n^(2j)); fill value: bit-for-bit; arbitrary-Y "
               "transform pairs: 32(d+sum r+8 n) eps * dense of per-core l1 majorants; custom bases: 64 eps d n^2 cond(H) * "
               "prod ||C_k||_F ||phi(x_k)||_2; long tensors: the value is a product R_1..R_d of per-dimension matrices (exact 1-D "
@@ -57,8 +67,11 @@ TOLERANCES = ("values: |got-ref| <= [32(d+sum r) + sum_k n_k^2 (8 kappa_k + 48)]
               "~ d K eps for cancellation-free chains, factor 2 for higher orders (sum_k K_k eps < 1e-9)")
 ASSUMPTIONS = ["mode sizes n_k >= 2 and new grid sizes m_k >= 2 (a one-node Chebyshev grid is undefined)",
                "d >= 2 for the TT routines, d >= 1 for the dense ones",
-               "box offset ratio kappa = max(|a|,|b|)/(b-a) <= 2e3, widths 6e-4..4e3",
-               "non-symmetric boxes have ||b|-|a|| >= 0.25 (b-a)/2 (or >= 1 for integer bounds) >> 1e-16 (func_sum_full's absolute symmetry threshold)",
+               "box offset ratio kappa = max(|a|,|b|)/(b-a) <= 1.1e8 (<= 2e3 for long tensors and custom bases), widths 6e-13..7e12 "
+               "(6e-4..4e3 for long tensors); with a or b = None (library default -1 / 1 on one side) widths 6e-4..7e12, so that kappa <= 2e3",
+               "non-symmetric boxes have ||b|-|a|| >= 0.25 (b-a)/2 >= 8e-14 (or >= 1 for integer bounds) >> 1e-16 (func_sum_full's ABSOLUTE "
+               "symmetry threshold on the pinned tree: a non-symmetric box narrower than ~1e-16 would be accepted by it - below the generated widths)",
+               "outside points are outside by >= 1 ulp of the bound or 1e-6 (b-a) >= 6e-19 >> 1e-99 (the library's absolute slack in the box test)",
                "scalar bounds are Python float / int or np.float64 (a float subclass): other NumPy scalars (np.int64, np.float32) and 0-d "
                "arrays are outside the documented 'float, list, np.ndarray' and are rejected by grid_prep_opts consumers with a TypeError / "
                "IndexError on the pinned tree - not generated; the same holds for an np.int64 scalar as the new grid size m",
@@ -162,6 +175,26 @@ def kappa_of(a, b):
 def K_val(n, r, kappa=None):
     kappa = kappa or [0.0] * len(n)
     return 32.0 * (len(n) + sum(r)) + sum(nk * nk * (8.0 * kp + 48.0) for nk, kp in zip(n, kappa))
+
+
+def geo_labels(a, b):
+    """Histogram classes of the box geometry (widths and offset ratios far from the unit scale)."""
+    w = [y - x for x, y in zip(a, b)]
+    kap = kappa_of(a, b)
+    out = []
+    if min(w) <= 1e-8:
+        out.append("geo:width<=1e-8")
+    if max(w) >= 1e8:
+        out.append("geo:width>=1e8")
+    if max(kap) >= 1e5:
+        out.append("geo:kappa>=1e5")
+    elif max(kap) >= 3e3:
+        out.append("geo:kappa>=3e3")
+    if len(w) > 1 and max(w) >= 1e6 * min(w):
+        out.append("geo:mixed_scales(ratio>=1e6)")
+    if len(w) > 1 and max(kap) >= 1e3 * (min(kap) + 1.0):
+        out.append("geo:mixed_offsets(ratio>=1e3)")
+    return out
 
 
 def exact_t(x, a, b):
@@ -318,9 +351,21 @@ def m_spell(m, how):
 nice = st.sampled_from([1.0, 0.5, 2.0, math.pi, 1.0 / 3.0])
 
 
+# Box GEOMETRY far from the unit scale (the property quantifies over all boxes): the affine map x -> t and the factors
+# (b-a)/2, 2/(b-a) are scale-free, so nothing but the conditioning kappa = max(|a|,|b|)/(b-a) may enter an error.
+#   tsym / hsym  symmetric, half-width m * 10^e, e in -12..-4 / 4..12
+#   toff / lo0   the same widths, centre = u * half-width with u in 0.25..3 / exactly [0, w] or [-w, 0]
+#   far          kappa = 10^x, x in 3..8 (log-uniform), half-width m * 10^e with e in -12..12 (e.g. [1e6, 1e6+1], [1000, 1000.004])
+#   intfar       integer bounds, |a| in 1e4..2^20-16, width 1..9 (kappa 1e3..1e6; every int / float32 spelling still exact)
+GEO_CLS = ["tsym", "hsym", "toff", "toff", "lo0", "far", "far", "far", "intfar"]
+GEO_KAPPA_MAX_LOG10 = 8.0
+
+
 @st.composite
-def box1(draw, force=None):
-    cls = force or draw(st.sampled_from(["sym", "sym", "off1", "off1", "big", "isym", "int"]))
+def box1(draw, force=None, tiny=True):
+    cls = force or draw(st.sampled_from(["sym", "sym", "off1", "off1", "big", "isym", "int", "geo", "geo", "geo"]))
+    if cls == "geo":
+        cls = draw(st.sampled_from(GEO_CLS))
     if cls == "isym":                          # integer bounds (any int / float spelling denotes the same box)
         h = draw(st.integers(1, 6))
         return {"cls": cls, "a": -float(h), "b": float(h)}
@@ -330,7 +375,36 @@ def box1(draw, force=None):
         if lo == -hi:
             hi += 1
         return {"cls": cls, "a": float(lo), "b": float(hi)}
-    h = draw(st.one_of(nice, gen.reals(0.5, 2.0))) * 10.0 ** draw(st.integers(-3, 3))
+    if cls == "intfar":
+        lo = draw(st.sampled_from([-1, 1])) * draw(st.one_of(st.integers(10 ** 4, 2 ** 20 - 16), st.integers(10 ** 5, 2 ** 20 - 16)))
+        w = draw(st.integers(1, 9))
+        lo = lo if lo > 0 else lo - w
+        return {"cls": cls, "a": float(lo), "b": float(lo + w)}
+    m = draw(st.one_of(nice, gen.reals(0.5, 2.0)))
+    if cls in GEO_CLS:
+        e_tiny, e_huge = st.integers(-12, -4), st.integers(4, 12)
+        if cls == "tsym" and not tiny:
+            cls = "hsym"
+        if cls == "tsym":
+            e = draw(e_tiny)
+        elif cls == "hsym":
+            e = draw(e_huge)
+        elif cls == "far":
+            e = draw(st.one_of(e_tiny, e_huge, st.integers(-3, 3))) if tiny else draw(st.integers(-3, 12))
+        else:
+            e = draw(st.one_of(e_tiny, e_huge)) if tiny else draw(e_huge)
+        h = m * 10.0 ** e
+        sg = draw(st.sampled_from([-1.0, 1.0]))
+        if cls in ("tsym", "hsym"):
+            return {"cls": cls, "a": -h, "b": h}
+        if cls == "lo0":
+            return {"cls": cls, "a": 0.0, "b": 2.0 * h} if sg > 0 else {"cls": cls, "a": -2.0 * h, "b": 0.0}
+        if cls == "toff":
+            c = sg * draw(gen.reals(0.25, 3.0)) * h
+        else:
+            c = sg * 10.0 ** draw(gen.reals(3.0, GEO_KAPPA_MAX_LOG10)) * 2.0 * h
+        return {"cls": cls, "a": c - h, "b": c + h}
+    h = m * 10.0 ** draw(st.integers(-3, 3))
     if cls == "sym":
         return {"cls": cls, "a": -h, "b": h}
     u = draw(gen.reals(0.25, 3.0)) if cls == "off1" else draw(gen.reals(100.0, 1900.0))
@@ -338,21 +412,40 @@ def box1(draw, force=None):
     return {"cls": cls, "a": c - h, "b": c + h}
 
 
-SYM_CLS = ("sym", "isym")
+SYM_CLS = ("sym", "isym", "tsym", "hsym")
 
 
 @st.composite
-def boxes(draw, d, mode="given"):
+def boxes(draw, d, mode="given", geo=False):
+    """geo=True: at least one side comes from GEO_CLS - one extreme side among ordinary ones / all sides extreme
+    (independently drawn) / one extreme box for every dimension (scalar spellings)."""
     uniform = draw(st.integers(0, 3)) == 0
+    tiny = mode not in ("a_none", "b_none")    # [-1, -1 + w] / [1 - w, 1]: a tiny w would mean kappa = 1 / w up to 1e12
     if mode == "none":
         bs = [{"cls": "sym", "a": -1.0, "b": 1.0}] * d
         uniform = True
     else:
-        if draw(st.integers(0, 3)) == 0:       # all bounds integers: integer spellings of a / b / X become available
-            f = st.sampled_from(["isym", "int", "int"])
+        if geo:
+            pat = draw(st.sampled_from(["one", "one", "all", "uniform"]))
+            g = st.sampled_from(GEO_CLS)
+            uniform = pat == "uniform"
+            if pat == "uniform":
+                bs = [draw(box1(force=draw(g), tiny=tiny))] * d
+            elif pat == "all":
+                bs = [draw(box1(force=draw(g), tiny=tiny)) for _ in range(d)]
+            else:
+                if draw(st.integers(0, 3)) == 0:
+                    f = st.sampled_from(["isym", "int", "int"])
+                    bs = [draw(box1(force=draw(f))) for _ in range(d)]
+                    bs[draw(st.integers(0, d - 1))] = draw(box1(force="intfar"))
+                else:
+                    bs = [draw(box1(force=draw(st.sampled_from(["sym", "off1", "off1", "big", "int"])))) for _ in range(d)]
+                    bs[draw(st.integers(0, d - 1))] = draw(box1(force=draw(g), tiny=tiny))
+        elif draw(st.integers(0, 3)) == 0:     # all bounds integers: integer spellings of a / b / X become available
+            f = st.sampled_from(["isym", "int", "int", "int", "intfar"])
             bs = [draw(box1(force=draw(f)))] * d if uniform else [draw(box1(force=draw(f))) for _ in range(d)]
         else:
-            bs = [draw(box1())] * d if uniform else [draw(box1()) for _ in range(d)]
+            bs = [draw(box1(tiny=tiny))] * d if uniform else [draw(box1(tiny=tiny)) for _ in range(d)]
         if mode == "a_none":       # lower bound is the library default -1, upper bound drawn
             bs = [{"cls": "off1", "a": -1.0, "b": -1.0 + (x["b"] - x["a"])} for x in bs]
         elif mode == "b_none":
@@ -454,11 +547,11 @@ def fill_specs(draw):
 # ------------------------------------------------------------------------------------------- TT routines
 
 @st.composite
-def tt_cases(draw, tier):
+def tt_cases(draw, tier, geo=False):
     p = draw(polys(tier, 2, 4))
     n = p["n"]
-    mode = draw(st.sampled_from(["given"] * 5 + ["none", "a_none", "b_none"]))
-    box = draw(boxes(len(n), mode))
+    mode = draw(st.sampled_from(["given"] * 7 + ["a_none", "b_none"])) if geo else draw(st.sampled_from(["given"] * 5 + ["none", "a_none", "b_none"]))
+    box = draw(boxes(len(n), mode, geo=geo))
     z, z_how = draw(fill_specs())
     return {"poly": p, "mode": mode, "box": box, "pts": draw(point_codes(n, int_box=box["int"])),
             "x_how": draw(x_hows(box["int"])), "z": z, "z_how": z_how, "skip_out": draw(st.sampled_from([None, None, True, False])),
@@ -485,6 +578,7 @@ def prop_tt(case, ctx):
     ctx.label(f"d={d}", "rank>=2" if max(r) >= 2 else "rank1", "box:" + "+".join(sorted(set(case["box"]["cls"]))),
               "spell_a:" + eff_how(a, how), "spell_b:" + eff_how(b, how_b), "z:" + z_how, "mode:" + mode, "m:" + case["m"]["how"],
               "m!=n" if mm != n else "m==n", "deg_deficient" if any(p["drop"]) else "full_degree")
+    ctx.label(*geo_labels(a, b))
     ctx.nontrivial(max(r) >= 2 or not sym or mm != n)
 
     tol0 = K_val(n, r) * EPS * scale
@@ -573,10 +667,10 @@ def prop_tt(case, ctx):
 # ------------------------------------------------------------------------------------------- dense routines
 
 @st.composite
-def dense_cases(draw, tier):
+def dense_cases(draw, tier, geo=False):
     p = draw(polys(tier, 1, 3, size_max=512 if tier == "quick" else 1024))
     n = p["n"]
-    box = draw(boxes(len(n)))
+    box = draw(boxes(len(n), geo=geo))
     z, z_how = draw(fill_specs())
     return {"poly": p, "box": box, "pts": draw(point_codes(n, int_box=box["int"])), "x_how": draw(x_hows(box["int"], lists=False)),
             "z": z, "z_how": z_how, "skip_out": draw(st.sampled_from([None, None, True, False])),
@@ -603,6 +697,7 @@ def prop_dense(case, ctx):
     ctx.label(f"d={d}", "rank>=2" if max(r) >= 2 else "rank1", "box:" + "+".join(sorted(set(case["box"]["cls"]))),
               "spell_a:" + eff_how(a, how), "spell_b:" + eff_how(b, how_b), "z:" + z_how,
               "m!=n" if mm != n else "m==n", "all_sym" if sym else "not_all_sym")
+    ctx.label(*geo_labels(a, b))
     ctx.nontrivial(max(r) >= 2 or not sym or mm != n)
     tol0 = K_val(n, r) * EPS * scale
     tolp = K_val(n, r, kap) * EPS * scale
@@ -897,7 +992,7 @@ def general_cases(draw, tier):
     if kind == "func_basis":
         lo, hi = -1.0, 1.0
     else:
-        bx = draw(box1(force=draw(st.sampled_from(["sym", "off1"]))))
+        bx = draw(box1(force=draw(st.sampled_from(["sym", "sym", "off1", "off1", "tsym", "hsym", "toff", "lo0"]))))
         lo, hi = bx["a"], bx["b"]
     return {"kind": kind, "nf": nf, "r": r, "lo": lo, "hi": hi, "shared_X": draw(st.booleans()), "x_list": draw(st.booleans()),
             "exp": [draw(st.integers(-6, 6)) for _ in range(d)], "seed": draw(gen.seeds),
@@ -1228,6 +1323,8 @@ def prop_long(case, ctx):
 SUBCHECKS = [
     Sub("tt", prop_tt, strategy=tt_cases, quick=120, thorough=2000),
     Sub("dense", prop_dense, strategy=dense_cases, quick=90, thorough=1500),
+    Sub("tt_geo", prop_tt, strategy=lambda tier: tt_cases(tier, geo=True), quick=50, thorough=800),
+    Sub("dense_geo", prop_dense, strategy=lambda tier: dense_cases(tier, geo=True), quick=50, thorough=800),
     Sub("linear", prop_linear, strategy=linear_cases, quick=120, thorough=2000),
     Sub("diff", prop_diff, strategy=diff_cases, quick=150, thorough=3000),
     Sub("general", prop_general, strategy=general_cases, quick=120, thorough=2500),
